@@ -21,6 +21,7 @@ import (
 
 	"github.com/richardwilkes/toolbox/errs"
 	"github.com/richardwilkes/toolbox/xio"
+	"github.com/richardwilkes/toolbox/xio/fs/internal"
 )
 
 // ExtractArchive extracts the contents of a tar archive at 'src' into the 'dst' directory.
@@ -60,8 +61,11 @@ func ExtractWithMask(tr *tar.Reader, dst string, mask os.FileMode) error {
 			return errs.Wrap(err)
 		}
 		path := filepath.Join(root, hdr.Name) //nolint:gosec // We check for path traversal below
-		if !strings.HasPrefix(path, rootWithTrailingSep) {
+		if !strings.HasPrefix(path, rootWithTrailingSep) && (path != root || hdr.Typeflag != tar.TypeDir) {
 			return errs.Newf("Path outside of root is not permitted: %s", hdr.Name)
+		}
+		if err = internal.EnsureNoSymlinks(root, path); err != nil {
+			return errs.Wrap(err)
 		}
 		switch hdr.Typeflag {
 		case tar.TypeReg:
@@ -72,7 +76,14 @@ func ExtractWithMask(tr *tar.Reader, dst string, mask os.FileMode) error {
 			if err = os.MkdirAll(filepath.Dir(path), 0o755&mask); err != nil {
 				return errs.Wrap(err)
 			}
-			if err = os.Link(hdr.Linkname, path); err != nil {
+			target := filepath.Join(root, hdr.Linkname) //nolint:gosec // We check for path traversal below
+			if !strings.HasPrefix(target, rootWithTrailingSep) {
+				return errs.Newf("Link target outside of root is not permitted: %s", hdr.Linkname)
+			}
+			if err = internal.EnsureNoSymlinks(root, target); err != nil {
+				return errs.Wrap(err)
+			}
+			if err = os.Link(target, path); err != nil {
 				return errs.Wrap(err)
 			}
 		case tar.TypeSymlink:
